@@ -4,7 +4,8 @@ import Bw.Text
     anchored byte regex the tokens denote (`Tokens::to_regex_with`).
 
     Modelled fragment: globs made of literal characters, `?`, `*` and `**` (every combination and position).
-    Character classes `[..]`, alternates `{..}`, and `\` escapes are outside the fragment (`parse` returns `none`).
+    and `\c` escapes (the escaped character is a literal). Character classes `[..]`, alternates `{..}` and a dangling `\` at
+    the end are outside the fragment (`parse` returns `none`).
     Matching is over UTF-8 bytes, as the `(?-u)` regex is: `?` consumes one byte. -/
 namespace Bw.Glob
 
@@ -49,6 +50,10 @@ def parseAux : List Tok → Option Char → Text → Option (List Tok)
   | ts, _, '*' :: '*' :: c :: r => parseAux (.star :: .star :: ts) (some '*') (c :: r)
   | ts, _, '*' :: rest => parseAux (.star :: ts) (some '*') rest
   | ts, _, '?' :: rest => parseAux (.any :: ts) (some '?') rest
+  | ts, _, '\\' :: c :: rest =>
+    -- `parse_backslash` (backslash_escape is on): the next character is a literal whatever it is; it is also the `prev`
+    -- the following token sees. (A backslash at the very end is an error: outside the fragment, below.)
+    parseAux ((String.utf8EncodeChar c).reverse.map .lit ++ ts) (some c) rest
   | ts, _, c :: rest =>
     if outside c then none else parseAux ((String.utf8EncodeChar c).reverse.map .lit ++ ts) (some c) rest
 
